@@ -39,6 +39,8 @@ FRAMES = [
     ((-2, -1, 2), (1, 2, 2), (2, -2, 1)),
 ]
 BASES = [(F(1, 8), F(-3, 8), F(1, 2)), (F(0), F(0), F(0)), (F(-5, 8), F(1), F(1, 4)), (F(3, 4), F(7, 8), F(-1))]
+# Point / Vector probes additionally use coordinates of larger magnitude (the tolerance is absolute and uniform)
+BIG_BASES = [(F(25, 2), F(-129, 8), F(449, 4)), (F(-1000), F(3, 8), F(64)), (F(7), F(-9, 2), F(11, 8))]
 TYPES = ("P", "V", "L", "PL", "S", "H", "G", "K")
 PERTS = ("eps/1000", "eps/100", "4eps")
 
@@ -48,9 +50,9 @@ def catalogue(t, fi, bi):
     e1, e2, e3 = [tuple(F(c) for c in e) for e in FRAMES[fi]]
     p = BASES[bi]
     if t == "P":
-        return {"kind": "P", "pts": [p]}
+        return {"kind": "P", "pts": [p if fi % 2 == 0 else BIG_BASES[(fi + bi) % len(BIG_BASES)]]}
     if t == "V":
-        return {"kind": "V", "pts": [X.add(e1, (F(1, 8), 0, 0))] if False else [e1]}
+        return {"kind": "V", "pts": [e1 if bi % 2 == 0 else BIG_BASES[(fi + bi) % len(BIG_BASES)]]}
     if t == "L":
         return {"kind": "L", "pts": [p, e1]}
     if t == "PL":
